@@ -6,7 +6,9 @@
    Heap.  A heap is the list of all blocks ever returned by [new T[n]]; the block id is
    its position, so the "fresh counter" is [length h] and ids are never reused (this is
    what makes use-after-free and double free observable, like ASan's quarantine).
-   A block is (cells, live).  [delete[]] clears [live] and keeps the cells.
+   A block is (cells, live).  [delete[]] clears [live] and keeps the cells.  An access is classified
+   the way AddressSanitizer does: past the end of a block (live or freed) it is OutOfBounds
+   (redzone), inside a freed block it is UseAfterFree.
    Element values are abstract integers ([String] element buffers are always-safe values;
    only [==] on elements is used by the helpers).
 
@@ -60,10 +62,9 @@ Definition hread (h : heap) (p : ptr) (i : nat) : res Z :=
       match nth_error h b with
       | None => Unsafe OutOfBounds                (* wild pointer: never produced *)
       | Some blk =>
-          if live blk then
-            if i <? length (cells blk) then Safe (nth i (cells blk) 0%Z)
-            else Unsafe OutOfBounds
-          else Unsafe UseAfterFree
+          if i <? length (cells blk) then
+            if live blk then Safe (nth i (cells blk) 0%Z) else Unsafe UseAfterFree
+          else Unsafe OutOfBounds       (* past the end of a block, live or freed: its redzone *)
       end
   end.
 
@@ -75,11 +76,10 @@ Definition hwrite (h : heap) (p : ptr) (i : nat) (v : Z) : res heap :=
       match nth_error h b with
       | None => Unsafe OutOfBounds
       | Some blk =>
-          if live blk then
-            if i <? length (cells blk)
-            then Safe (upd h b (mkblock (upd (cells blk) i v) true))
-            else Unsafe OutOfBounds
-          else Unsafe UseAfterFree
+          if i <? length (cells blk) then
+            if live blk then Safe (upd h b (mkblock (upd (cells blk) i v) true))
+            else Unsafe UseAfterFree
+          else Unsafe OutOfBounds
       end
   end.
 
